@@ -113,6 +113,7 @@ def run(F, R, ctx):
     R.floor("C08.d", "error-unwind loops", nloops, 2)
 
     reinstate_rule(F, R)
+    bulk_discard_rule(F, R)
     wind_rules(F, R)
 
     # close_marks itself must upgrade the weak mark and close it
@@ -382,3 +383,44 @@ def wind_rules(F, R):
            "before invoking the raw continuation: escaping from or re-entering a dynamic-wind extent through a "
            "continuation runs no thunks", where(cc), sample=True)
     R.floor("C08.w", "dynamic-wind protocol instances", 9, 9)
+
+
+BULK = r"Vec<T,A>\}::(clear|truncate|drain|retain|retain_mut|split_off|set_len|dedup_by|resize|resize_with)$"
+BULK_ALLOW = {
+    "vm::threads::spawn_native_thread": "clears the frame stack of the *clone* made by VmCore::make_thread, which closed "
+                                        "every mark first (C08.b); the spawning thread keeps its frames",
+}
+
+
+def bulk_discard_rule(F, R):
+    R.rule("C08.f", "frames leave SteelThread.stack_frames only one at a time through a pop (covered by C08.a), or in bulk "
+                    "(clear / truncate / drain / retain / overwrite of the field) after a loop that pops or closes the marks of "
+                    "every frame: each bulk discard is cut off from the function entry by a frame-pop or close-marks call that "
+                    "lies on a loop")
+    n = 0
+    for name, fn in sorted(F.fns.items()):
+        if not name.startswith("steel::steel_vm::"):
+            continue
+        sites = [(i, lib.split_path(b["callee"])[-1]) for i, b in fn.calls()
+                 if re.search(BULK, b["callee"]) and b["targs"] and b["targs"][0] == "StackFrame"]
+        sites += [(i, "assignment") for i, _, e in fn.events("fld")
+                  if e[1] == "SteelThread" and e[2] == "stack_frames" and e[3][0] == "w"]
+        if not sites:
+            continue
+        loops = [c for c in (fn.call_blocks(CLOSE) + frame_pops(fn)) if c in fn.reachable_from(fn.succ(c))]
+        for i, what in sites:
+            n += 1
+            if fn.short() in BULK_ALLOW:
+                R.inst("C08.f", "%s / %s of the frame stack (allowlisted)" % (fn.short(), what), True,
+                       sample={"reason": BULK_ALLOW[fn.short()]}, nontrivial=False)
+                continue
+            ok = False
+            if loops:
+                ok, _ = fn.every_path_passes_from([0], [i], loops)
+            R.inst("C08.f", "%s / %s of the frame stack follows a pop/close loop" % (fn.short(), what), ok,
+                   "%s discards frames in bulk (%s on SteelThread.stack_frames, line %s) on a path that has not popped them "
+                   "one by one or closed their continuation marks: a continuation captured lazily in one of those frames "
+                   "stays open with no frame, and invoking it later panics the host ('Failed to find an open continuation "
+                   "on the stack')" % (fn.short(), what, fn.blocks[i].get("line", "?")), fn.loc(fn.blocks[i].get("line")),
+                   sample=True)
+    R.floor("C08.f", "bulk discards of the frame stack", n, 2)
